@@ -1169,7 +1169,26 @@ func expandBoolLocals(g *Graph, e ast.Expr, depth int) (ast.Expr, bool) {
 		if c, isCall := ast.Unparen(d).(*ast.CallExpr); isCall {
 			// an argument-less observer on a variable / field path (q.IsIdempotent()) names a stable predicate
 			sel, isSel := ast.Unparen(c.Fun).(*ast.SelectorExpr)
-			if !isSel || len(c.Args) != 0 || !isFieldPath(sel.X) {
+			if pureCompare[calleeName(info, c)] {
+				// a library comparison of values that are not re-bound in the function
+				for _, a := range c.Args {
+					root := ast.Unparen(a)
+					for {
+						if s2, is := root.(*ast.SelectorExpr); is {
+							root = ast.Unparen(s2.X)
+							continue
+						}
+						break
+					}
+					rid, isId := root.(*ast.Ident)
+					if !isId || !isFieldPath(ast.Unparen(a)) {
+						return e, false
+					}
+					if ro := info.Uses[rid]; ro == nil || !singleAssigned(info, owner.Decl.Body, ro) && !neverAssigned(info, owner.Decl.Body, ro) {
+						return e, false
+					}
+				}
+			} else if !isSel || len(c.Args) != 0 || !isFieldPath(sel.X) {
 				return e, false
 			}
 		}
@@ -1263,3 +1282,6 @@ func (p *Program) nonNilErrorValue(info *types.Info, e ast.Expr) bool {
 	}
 	return p.nonNilVars[v]
 }
+
+// pureCompare: library predicates whose result depends only on their arguments' values.
+var pureCompare = map[string]bool{"bytes.Equal": true, "strings.EqualFold": true, "strings.HasPrefix": true, "strings.HasSuffix": true, "strings.Contains": true, "reflect.DeepEqual": true}
